@@ -340,10 +340,55 @@ def file_abs(msgs):
     return out[:-1], (out[-1] if out else None)
 
 
+# ---- the life of a timeline object: several runs (foreground / background thread), stop(), reset() in between ----------------
+LHEADER = "From Isobar Require Import Base.Prelude Sched.Model Sched.Obs Sched.RunLoop.\n"
+LIFE_OPS = ("run", "background", "hand_run", "stop", "reset")
+
+
+def life_scenario(desc, pieces, config):
+    """pieces: list of (track indices to schedule, then the life operations that follow); every track is scheduled by a plain call
+    at the moment its piece begins.  Returns (scenario, ids)"""
+    ops, ids, n = [], {}, 0
+    for tracks, after in pieces:
+        for k in tracks:
+            t = desc["tracks"][k]
+            ops.append(G.sched_op(t["stream"], t["q"], t["d"], t["count"], True, None, True))
+            ids[k] = n
+            n += 1
+        ops += [list(o) for o in after]
+    sc = {"tpb": desc["tpb"], "config": dict(config), "callbacks": [{"raise": c["raise"], "ops": c["ops"]} for c in desc["callbacks"]], "ops": ops}
+    return sc, ids
+
+
+def l_term(sc):
+    out = []
+    for o in sc["ops"]:
+        if o[0] == "run":
+            out.append("LRun %s" % natlit(o[1]))
+        elif o[0] == "background":
+            out.append("LBackground %s" % natlit(o[1]))
+        elif o[0] == "stop":
+            out.append("LStop")
+        elif o[0] == "reset":
+            out.append("LReset")
+        else:
+            out.append("LOp (%s)" % c_op(o))
+    return lst(out)
+
+
 class Plan:
     """collects scenarios to run; remembers the index of each"""
     def __init__(self):
         self.scs, self.fin, self.keys = [], [], {}
+
+    def add_raw(self, key, sc, ids, desc):
+        k = json.dumps(key, sort_keys=True, default=str)
+        if k in self.keys:
+            return self.keys[k]
+        self.scs.append((sc, ids, desc))
+        self.fin.append(G.finalize(sc))
+        self.keys[k] = len(self.scs) - 1
+        return self.keys[k]
 
     def add(self, key, desc, mode_ignore=None, dev_fail=None, run_mode=False, flips=None, dev_exc=None, device=None):
         """mode_ignore: what the Timeline constructor is given; flips: later assignments of the attribute (see insert_flips)"""
@@ -510,7 +555,106 @@ def gen_cases(rng, n_base, per_base):
                     i_run = plan.add(("run", b, f, idx, item, ctor, flips), fd, mode_ignore=ctor, flips=flips, run_mode=True)
                     cases.append({"kind": "run", "site": "run()", "b": b, "f": [f], "idx": [idx], "ignore": ignore, "ctor": ctor, "flips": flips,
                                   "setup": "early" if flips else "ctor", "item": item, "run": i_run, "ticks": i_ticks, "desc": fd})
+        # THE SAME TIMELINE OBJECT USED FOR SEVERAL RUNS: a healthy piece is played to its end (in the foreground, or on the thread
+        # background() creates), possibly stop() / reset(), then further tracks - one of them failing - are scheduled and the
+        # timeline is run again in the foreground
+        if b % 4 == 1 and k >= 2:
+            dl = copy.deepcopy(desc)
+            for t in dl["tracks"]:
+                t["stream"]["cyclic"] = False; t["rwd"] = True; t["at"] = 0; t["unschedule_at"] = None
+            first_piece = [0]
+            rest = list(range(1, k))
+            (f, idx) = rng.choice([(f, idx) for f in rest for idx in range(len(dl["tracks"][f]["stream"]["items"]))])
+            item = fault_item(rng, rng.choice(["raise_eval", "raise_ctor"]))
+            fl = with_item(dl, f, idx, item)
+            for ignore in (True, False):
+                firsts = ["background", rng.choice(["run", "background"])] if not ignore else [rng.choice(["run", "background"])]
+                for vi, first in enumerate(firsts):
+                    between = rng.choice([[], [], [["stop"]], [["reset"]], [["stop"], ["reset"]]])
+                    again = rng.random() < 0.3          # the healthy piece played twice before the failing one
+                    def mk(first_op, second_op, tracks_b, d_=fl):
+                        pieces = [(first_piece, [[first_op, 400]] + between)]
+                        if again:
+                            pieces.append((first_piece, [[first_op if first_op == "hand_run" else "run", 400]]))
+                        pieces.append((tracks_b, [[second_op, 400]]))
+                        return life_scenario(d_, pieces, {"ignore": ignore, "stop_when_done": True})
+                    key = (b, f, idx, item, ignore, first, between, again, vi)
+                    i_life = plan.add_raw(("life",) + key, *mk(first, "run", rest), fl)
+                    i_hand = plan.add_raw(("life-hand",) + key, *mk("hand_run", "hand_run", rest), fl)
+                    i_minus = plan.add_raw(("life-minus",) + key, *mk(first, "run", [t for t in rest if t != f]), fl) if ignore else None
+                    cases.append({"kind": "life", "site": "reused-timeline", "b": b, "f": [f], "idx": [idx], "ignore": ignore, "ctor": ignore,
+                                  "flips": [], "item": item, "first": first, "between": [o[0] for o in between], "again": again,
+                                  "run": i_life, "hand": i_hand, "minus": i_minus, "desc": fl})
     return plan, cases
+
+
+def judge_life(case, plan, results, catalogue):
+    """a timeline object used for several runs: every run() must end as the same ticks made by hand end, whatever came before"""
+    bad = []
+    sc, ids, desc = plan.scs[case["run"]]
+    r, h = results[case["run"]], results[case["hand"]]
+    runs, hand = r.get("runs", []), h.get("runs", [])
+    cb_owner = {i: c["owner"] for i, c in enumerate(desc["callbacks"])}
+    chans = [t["chan"] for t in desc["tracks"]]
+    want_cls = site_class(case["item"], catalogue)
+    case["exc_class"] = want_cls
+    struck = False
+    for n, (a, b_) in enumerate(zip(runs, hand)):
+        last = n == len(runs) - 1
+        where = "run %d of the timeline's life (%s%s)" % (n + 1, a["mode"], ", after %s" % "+".join(case["between"]) if n and case["between"] else "")
+        if b_["how"].startswith("exc:"):
+            struck = True
+            if case["ignore"]:
+                bad.append(("exception-escaped", "ignore_exceptions is set, yet tick() raised %s in %s" % (b_["how"], where)))
+            elif a["mode"] == "run" and a["how"] != b_["how"]:
+                bad.append(("run-not-propagated", "%s: tick() raises %s on tick %d of that run, but Timeline.run() ended with %r (earlier in its life the "
+                            "timeline was: %s)" % (where, b_["how"][4:], len(b_["ticks"]) - 1, a["how"],
+                                                   ", ".join("%s -> %s" % (x["mode"], x["how"]) for x in runs[:n]) or "fresh")))
+            elif a["mode"] == "run" and want_cls and a["how"] != "exc:" + want_cls:
+                bad.append(("run-other-exception", "%s: the fault site raises %s, run() let %r out" % (where, want_cls, a["how"])))
+        elif b_["how"] == "returned" and a["how"] != "returned":
+            bad.append(("run-trace", "%s: the same ticks made by hand end with StopIteration (all tracks done), Timeline.run() ended with %r" % (where, a["how"])))
+        if a["ticks"] != b_["ticks"] and not (a["mode"] == "background" and a["how"] != "returned"):
+            bad.append(("run-trace", "%s made %r, the same ticks made by hand %r" % (where, a["ticks"][:10], b_["ticks"][:10])))
+        if abs(a["now_ticks"] - b_["now_ticks"]) > 1e-6:
+            bad.append(("clock", "%s: Timeline.current_time is %r ticks afterwards, %r after the same ticks made by hand" % (where, a["now_ticks"], b_["now_ticks"])))
+    if len(runs) != len(hand):
+        bad.append(("run-trace", "the life has %d runs, the hand-made one %d" % (len(runs), len(hand))))
+    case["strikes"] = [(0, case["f"][0])] if struck or (case["ignore"] and runs and hand) else []
+    if case["ignore"] and case["minus"] is not None and runs:
+        m = results[case["minus"]].get("runs", [])
+        f = case["f"][0]
+        for n, (a, c_) in enumerate(zip(runs, m)):
+            for k_ in range(len(chans)):
+                if k_ == f:
+                    continue
+                pa = [[c for c in calls if M.owner_of(c, cb_owner) == chans[k_]] for calls in a["ticks"]]
+                pm = [[c for c in calls if M.owner_of(c, cb_owner) == chans[k_]] for calls in c_["ticks"]]
+                while pa and not pa[-1]:
+                    pa.pop()
+                while pm and not pm[-1]:
+                    pm.pop()
+                if pa != pm:
+                    bad.append(("interference", "run %d of the timeline's life: the healthy track on channel %d has %r, in the same life without the failing track %r"
+                                % (n + 1, chans[k_], pa[:8], pm[:8])))
+                    break
+    return bad
+
+
+def life_term(case, plan, results):
+    fin = plan.fin[case["run"]]
+    r = results[case["run"]]
+    END = {"returned": "RunReturned"}
+    obs = []
+    for a in r["runs"]:
+        e = END.get(a["how"], "RunRaised" if a["how"].startswith("exc:") else None)
+        if e is None or (a["mode"] == "background" and a["how"] != "returned"):
+            return None
+        obs.append("lrun_obs %s %s" % (lst([lst([S.coq_call(c) for c in calls]) for calls in a["ticks"]]), e))
+    x = F(r["runs"][-1]["now_ticks"]).limit_denominator(10 ** 6) * (fin["U"] // fin["tpb"])
+    if x.denominator != 1:
+        return None
+    return "%s %s %s %s" % (S.coq_config(fin), l_term(fin), lst(obs), zlit(int(x)))
 
 
 def fault_tick(markJ, ch):
@@ -648,6 +792,8 @@ def judge(case, plan, results, catalogue):
     bad = []
     if case["kind"] == "realdev":
         return judge_realdev(case, plan, results)
+    if case["kind"] == "life":
+        return judge_life(case, plan, results, catalogue)
     sc, ids, desc = plan.scs[case["run"]]
     r = results[case["run"]]
     cb_owner = {i: c["owner"] for i, c in enumerate(desc["callbacks"])}
@@ -913,7 +1059,7 @@ def check(run):
             run.violation({"kind": "driver-error", "site": "Timeline"}, {"scenario": plan.fin[i], "observed": r}, found_input=True)
     for case in cases:
         run.count()
-        need = [case["run"]] + [case[k] for k in ("minus", "base", "none", "ticks", "probe", "file", "file-", "port", "port-", "file-intolerant")
+        need = [case["run"]] + [case[k] for k in ("minus", "base", "none", "ticks", "probe", "file", "file-", "port", "port-", "file-intolerant", "hand")
                                 if isinstance(case.get(k), int)] + list(case.get("mark", []))
         if any(i in flagged for i in need):
             continue
@@ -934,6 +1080,11 @@ def check(run):
             run.dist("class." + str(site_class(case["item"], catalogue)))
         elif case.get("exc"):
             run.dist("class." + case["exc"])
+        if case["kind"] == "life":
+            run.dist("life.first-run-" + case["first"])
+            run.dist("life.between." + ("+".join(case["between"]) or "nothing"))
+            if case["again"]:
+                run.dist("life.three-runs")
         if case["kind"] == "realdev":
             run.dist("realdev.devices", 2 if "port" in case else 1)
             if case.get("strikes"):
@@ -959,7 +1110,7 @@ def check(run):
                 "scenario": plan.fin[case["run"]], "observed": detail,
                 "fault": {k: case[k] for k in ("kind", "site", "f", "idx", "j", "cb", "ignore", "ctor", "flips", "item", "exc", "exc_class") if k in case},
                 "strikes (tick, track index)": case.get("strikes"),
-                "reference_scenarios": {k: plan.fin[case[k]] for k in ("minus", "base", "none", "ticks", "probe", "file-", "port", "port-", "file-intolerant") if isinstance(case.get(k), int)},
+                "reference_scenarios": {k: plan.fin[case[k]] for k in ("minus", "base", "none", "ticks", "probe", "file-", "port", "port-", "file-intolerant", "hand") if isinstance(case.get(k), int)},
                 "oracle": "containment / non-interference / clock oracle of harness/c17.py",
                 "trace_head": results[case["run"]].get("obs", results[case["run"]].get("file", []))[:30],
                 "python": "PYTHONPATH=/repo /venv/bin/python /verif/harness/impl/c17_impl.py <<< '{\"scenarios\": [<scenario>]}'"})
@@ -967,7 +1118,7 @@ def check(run):
             run.sample({"fault": {k: case[k] for k in ("kind", "site", "f", "idx", "j", "ignore") if k in case}, "strikes": st,
                         "ops": [o[0] if o[0] != "tick" else o for o in plan.scs[case["run"]][0]["ops"]]})
     # model vs implementation on every tick()-driven run (faulty runs and reference runs), calls and clock
-    tickable = [i for i in range(len(plan.fin)) if not any(o[0] == "run" for o in plan.fin[i]["ops"]) and "driver_error" not in results[i]
+    tickable = [i for i in range(len(plan.fin)) if not any(o[0] in LIFE_OPS for o in plan.fin[i]["ops"]) and "driver_error" not in results[i]
                 and not plan.fin[i]["config"].get("device")]
     fin = [plan.fin[i] for i in tickable]
     res = [results[i] for i in tickable]
@@ -990,6 +1141,36 @@ def check(run):
             continue
         r_report_disagreement(run, fin[j], res[j], "clock", "Timeline.tick",
                               extra={"broken": "the model's clock after this history differs from Timeline.current_time (%r ticks)" % res[j]["now_ticks"]})
+    # the lives of re-used timelines against Sched/RunLoop.v: the calls of every tick of every run, how each run ended, the clock
+    lterms, lwhere = [], []
+    for case in cases:
+        if case["kind"] != "life" or case["run"] in flagged or "driver_error" in results[case["run"]]:
+            continue
+        t = life_term(case, plan, results)
+        if t is None:
+            run.discard("life: a run that did not end by itself")
+            continue
+        lterms.append(t); lwhere.append(case)
+    badl = run.coq_failing(LHEADER, ["life_agrees " + t for t in lterms], chunk=30)
+    if badl:
+        unk = set(run.coq_failing(LHEADER, ["negb (life_unknown %s %s)" % (
+            S.coq_config(plan.fin[lwhere[j]["run"]]), l_term(plan.fin[lwhere[j]["run"]])) for j in badl], chunk=30))
+        keep = []
+        for jj, j in enumerate(badl):
+            if jj in unk:
+                run.discard("life: model budget / fuel")
+            else:
+                keep.append(j)
+        badl = keep
+    run.cov["timeline_lives_validated_against_model"] = len(lterms) - len(badl)
+    run.cov["traces_validated_against_impl"] += len(lterms) - len(badl)
+    for j in badl:
+        case = lwhere[j]
+        run.violation({"kind": "correspondence", "site": "reused-timeline"}, {
+            "broken": "correspondence Sched/RunLoop.v (run_loop / life over Sched/Model.v) <-> isobar Timeline.run()/background()/stop()/reset() on this life",
+            "scenario": plan.fin[case["run"]], "observed": results[case["run"]].get("runs"),
+            "model": run.coq_eval(LHEADER, "runs_of (life %s tl0 %s)" % (S.coq_config(plan.fin[case["run"]]), l_term(plan.fin[case["run"]])))[:2000],
+            "python": "PYTHONPATH=/repo /venv/bin/python /verif/harness/impl/c17_impl.py <<< '{\"scenarios\": [<scenario>]}'"}, found_input=False)
     # real devices: the file / the port log against the model (scheduler run under dev_fail = the refused call, composed with the
     # device state machine of IO/FileWire.v), and the hypotheses of the file theorem on the generated histories
     dterms, dwhere = [], []
